@@ -1,7 +1,9 @@
-\* C02 views: the Extent view (point, range), the SpanCtxt view (every subset of trace id / span id / parent), the
+\* C02 views: the Extent view (point, range; and by source: ToExtent of Timestamp / Range<Timestamp> / Range<Option<Timestamp>> with
+\* every combination of bounds / Option / &, the extent of Span / Metric / Event carriers built with new / with_extent), the SpanCtxt view (every subset of trace id / span id / parent), the
 \* ThreadLocalCtxt snapshot (1 frame; 2-3 nested frames with overlapping keys, every resolution), the property views of
 \* Span and Metric events over 7 user property lists (some repeating evt_kind / span_name / metric_* keys);
 \* alone, under dedup / erasure, joined (both sides) with leaves repeating their keys, one more level (9 unary nodes, and_props).
+\* Every collection is replayed under the 6 key storage forms of Props.tla (KeyForms) with lookup keys separate / from the same buffer / prefix slices of enumerated keys.
 SPECIFICATION Spec
 CONSTANTS
     KeyOrder <- MC_KeyOrder
